@@ -323,7 +323,7 @@ func driveC13(seed int64, tier, out, replay string) {
 		line := "mkCase [] [] []"
 		listedShape := false // node roots spanning services: the scrub table's hypothesis does not hold (listed finding)
 		for _, f := range op.Features {
-			listedShape = listedShape || f == "multi_node_root" || f == "wild_fragments"
+			listedShape = listedShape || f == "multi_node_root"
 		}
 		if xerr == nil && before != nil && !listedShape {
 			beforeCoq := jsonObjToCoq(before)
